@@ -74,6 +74,30 @@ def pair_exprs(ta, tb):
     return out
 
 
+def lit_exprs(ta, tb, seed_rnd):
+    """one operand is a typed constant vector, the other a run-time input (both orders): reflected operators and the
+    constant-operand paths of the operator implementations"""
+    a = ('in', 'a')
+    b = ('in', 'b')
+    out = []
+    # (every pair case is created with the same seed: derive the constants from the operand types as well, otherwise all
+    #  cases would draw the same - possibly uninformative - constant for an operator)
+    rnd = random.Random(f"{seed_rnd.random()}:{ta}:{tb}")
+
+    def lit(t):
+        k, w = t
+        if k == 'bit':
+            return ('lit', 'bit', None, rnd.randrange(2))
+        return ('lit', k, w, rnd.choice([0, 1, (1 << w) - 1, rnd.randrange(1 << w)]))
+    for op in BINOPS:
+        out.append(('bin', op, lit(ta), b))
+        out.append(('bin', op, a, lit(tb)))
+    for op in CMPOPS:
+        out.append(('cmp', op, lit(ta), b))
+        out.append(('cmp', op, a, lit(tb)))
+    return out
+
+
 def int_exprs(ta):
     a = ('in', 'a')
     out = []
@@ -244,7 +268,7 @@ def run_case(case):
     if case['k'] == 'pair':
         ta, tb = tuple(case['ta']), tuple(case['tb'])
         in_types = {'a': ta, 'b': tb}
-        exprs = pair_exprs(ta, tb)
+        exprs = pair_exprs(ta, tb) + lit_exprs(ta, tb, rnd)
         if ta == tb:
             exprs += int_exprs(ta)
         if tb[0] == 'u' and ta[0] != 'bit':
